@@ -147,7 +147,7 @@ func init() {
 			"one ONCE call site per query; no LIMIT; function errors under ASYNC belong to C10/C19; SPIN completion before return is not required (only 'adds no column')",
 			"ASYNC calls appear as direct select-list items (the README rules out ASYNC inside FROM clauses)",
 		},
-		Floor:         []string{"q.plain", "q.async", "q.spinasync", "q.spin", "q.once", "star", "where", "nested", "shape.union", "shape.cte", "arg.null", "lat.zero", "lat.yield", "lat.random", "lat.skewed", "lat.straggler", "table.empty", "imm.async", "imm.spin", "imm.spinasync", "imm.harness"},
+		Floor:         []string{"q.plain", "q.async", "q.spinasync", "q.spin", "q.once", "q.await-async", "star", "where", "nested", "shape.union", "shape.cte", "arg.null", "lat.zero", "lat.yield", "lat.random", "lat.skewed", "lat.straggler", "table.empty", "imm.async", "imm.spin", "imm.spinasync", "imm.harness"},
 		MinNontrivial: 30,
 		Phases: []fw.Phase{
 			{Name: "ledger", N: func(t fw.Tier) int { return pick(t, 2500, 40000) }, Run: func(c *fw.Case) { c14Ledger(c, false) }},
@@ -199,7 +199,7 @@ func c14Ledger(c *fw.Case, race bool) {
 	}
 	t := gen.RandTable(c.R, gen.TableSpec{Name: "t1", MaxRows: 12, NumCols: 2, StrCols: 1, BoolCols: 1, NullCols: 1, StrStyle: gen.Plain})
 	force := ""
-	forced := []string{"q.plain", "q.async", "q.spinasync", "q.spin", "q.once", "star", "where", "nested", "table.empty", "shape.union", "shape.cte", "arg.null"}
+	forced := []string{"q.plain", "q.async", "q.spinasync", "q.spin", "q.once", "q.await-async", "star", "where", "nested", "table.empty", "shape.union", "shape.cte", "arg.null"}
 	if c.Idx < 3*len(forced) {
 		force = forced[c.Idx%len(forced)]
 	}
@@ -238,14 +238,14 @@ func c14Ledger(c *fw.Case, race bool) {
 		}
 	}
 	// items
-	quals := []string{"", "ASYNC", "SPINASYNC", "SPIN", "ONCE"}
+	quals := []string{"", "ASYNC", "SPINASYNC", "SPIN", "ONCE", "AWAIT-ASYNC"}
 	n := 1 + c.Intn(4)
 	var items []c14Item
 	usedOnce := false
 	for i := 0; i < n; i++ {
 		q := gen.Pick(c.R, quals)
 		if i == 0 && strings.HasPrefix(force, "q.") {
-			q = map[string]string{"q.plain": "", "q.async": "ASYNC", "q.spinasync": "SPINASYNC", "q.spin": "SPIN", "q.once": "ONCE"}[force]
+			q = map[string]string{"q.plain": "", "q.async": "ASYNC", "q.spinasync": "SPINASYNC", "q.spin": "SPIN", "q.once": "ONCE", "q.await-async": "AWAIT-ASYNC"}[force]
 		}
 		if q == "ONCE" {
 			if usedOnce || nested || shape == "union" {
@@ -264,7 +264,7 @@ func c14Ledger(c *fw.Case, race bool) {
 			feats = append(feats, "arg.null")
 		}
 		items = append(items, c14Item{qual: q, site: int32(i + 1), arg: arg, alias: fmt.Sprintf("a%d", i+1)})
-		feats = append(feats, map[string]string{"": "q.plain", "ASYNC": "q.async", "SPINASYNC": "q.spinasync", "SPIN": "q.spin", "ONCE": "q.once"}[q])
+		feats = append(feats, map[string]string{"": "q.plain", "ASYNC": "q.async", "SPINASYNC": "q.spinasync", "SPIN": "q.spin", "ONCE": "q.once", "AWAIT-ASYNC": "q.await-async"}[q])
 	}
 	star := force == "star" || c.Chance(0.2)
 	var where gen.Pred
@@ -298,7 +298,17 @@ func c14Ledger(c *fw.Case, race bool) {
 			if nested {
 				idcol, arg = "eid", "e"
 			}
+			awaited := q == "AWAIT-ASYNC"
+			if awaited {
+				name = "ASYNC." + fn
+				if stripQual {
+					name = fn
+				}
+			}
 			call := fmt.Sprintf("%s(%s, %s, %d)", name, arg, idcol, it.site)
+			if awaited {
+				call = "AWAIT(" + call + ")"
+			}
 			if q == "SPIN" || q == "SPINASYNC" {
 				calls = append(calls, call)
 			} else {
@@ -371,7 +381,7 @@ func c14Ledger(c *fw.Case, race bool) {
 				arg = "e"
 			}
 			switch it.qual {
-			case "", "ASYNC":
+			case "", "ASYNC", "AWAIT-ASYNC":
 				out[it.alias] = vfValue(u.row[arg], it.site)
 			case "ONCE":
 				out[it.alias] = onceVal
@@ -431,7 +441,7 @@ func c14Ledger(c *fw.Case, race bool) {
 	doc := DocOf(t)
 	hasBG := false
 	for _, it := range items {
-		if it.qual == "ASYNC" || it.qual == "SPINASYNC" {
+		if it.qual == "ASYNC" || it.qual == "SPINASYNC" || it.qual == "AWAIT-ASYNC" {
 			hasBG = true
 		}
 	}
@@ -479,7 +489,7 @@ func c14Ledger(c *fw.Case, race bool) {
 			for ui, u := range units {
 				k := [2]int32{it.site, u.id}
 				switch it.qual {
-				case "ASYNC", "SPINASYNC", "":
+				case "ASYNC", "SPINASYNC", "", "AWAIT-ASYNC":
 					if starts[k] != mult || ends[k] != mult {
 						det["ledger"] = fmt.Sprintf("site %d row %d: %d call-start, %d call-end before exec-return (late starts %d, late ends %d)", it.site, u.id, starts[k], ends[k], lateStart, lateEnd)
 						waitLedgerQuiet()
